@@ -191,11 +191,11 @@ func VisitValid(c ValidCfg, hist []uint8, which string, probes *int64) (uint64, 
 	stateHash := deep.Hash(r)
 	key := stateHash ^ hashModel(all, uint64(now)) ^ uint64(t0)*0x9e3779b97f4a7c15
 	if c.Shape {
-		key = deep.ShapeHash(r, deep.Shape{Now: vbase.Add(time.Duration(now))})
+		key = deep.ShapeHash(r, deep.Shape{Now: vbase.Add(time.Duration(now)), Horizon: max(gcInterval, 0)})
 		// reference model, same abstraction: per live entry its topics and the time left; plus how long ago
 		// the last Put/GC was (saturating at the interval)
 		for _, e := range all {
-			if e.exp > now {
+			if e.exp > now-int64(max(gcInterval, 0)) {
 				key = key*1099511628211 ^ uint64(e.exp-now)*31 ^ uint64(e.topics[0][0])
 			}
 		}
@@ -229,6 +229,22 @@ func VisitValid(c ValidCfg, hist []uint8, which string, probes *int64) (uint64, 
 		for _, e := range all {
 			if expired(e) && reach[e.id] {
 				return 0, true, viol("c18-expired-reachable-after-collection", "%s: a collection just ran, but the expired event %s (expired at %.2fs) is still reachable", desc(), e.id, float64(e.exp)/float64(tick))
+			}
+		}
+	}
+	if which != "C09" && gcInterval > 0 && len(hist) > 0 {
+		// The documented bound ("messages may be stored for a duration equal to TTL + GCInterval"): a Put made at
+		// least GCInterval after a message expired either collects now or comes after a collection that ran
+		// after the expiry - under every reading of when the interval starts, as long as it starts at a collection.
+		lastOp := hist[len(hist)-1]
+		if c.Ops != nil {
+			lastOp = uint8(c.Ops[lastOp])
+		}
+		if lastOp == 0 || lastOp == 1 || lastOp == 6 || lastOp == 7 {
+			for _, e := range all {
+				if e.exp+int64(gcInterval) <= now && reach[e.id] {
+					return 0, true, viol("c18-expired-reachable-beyond-ttl-plus-gcinterval", "%s: the last operation was a Put at %.2fs, but the event %s, which expired at %.2fs (more than GCInterval %v earlier), is still reachable: no Put-triggered collection has run since it expired", desc(), float64(now)/float64(tick), e.id, float64(e.exp)/float64(tick), gcInterval)
+				}
 			}
 		}
 	}
